@@ -1,6 +1,6 @@
 (* C15/Proofs.v -- lemmas about C15/Model.v (R instance, Z/nat index logic). *)
-From Coq Require Import ZArith Reals Lra Lia List Bool.
-From Verif Require Import Base.Num Base.Vec Base.VecR C15.Model.
+From Coq Require Import ZArith QArith Reals Lra Lia List Bool.
+From Verif Require Import Base.Num Base.Vec Base.VecR C15.Syntax Gen.InterpWeights C15.Model.
 Import ListNotations.
 Local Open Scope R_scope.
 
@@ -89,7 +89,7 @@ Definition cellnat (c : list R) (x : R) : nat := Nat.min (Nat.pred (ssleft c x))
 
 Lemma cell_index_nat (c : list R) x : (2 <= length c)%nat -> cell_index c x = Z.of_nat (cellnat c x).
 Proof.
-  intros Hn. unfold cell_index, cellnat.
+  intros Hn. unfold cell_index, gen_cell_index, cellnat. cbv zeta.
   destruct (Z.ltb_spec (Z.of_nat (ssleft c x) - 1) 0);
   destruct (Z.ltb_spec (Z.of_nat (length c) - 2) 0);
   try destruct (Z.ltb_spec (Z.of_nat (length c) - 2) (Z.of_nat (ssleft c x) - 1)); lia.
@@ -117,13 +117,20 @@ Qed.
 Lemma norm_dist_nat (c : list R) x : (2 <= length c)%nat ->
   norm_dist c x = (x - nth (cellnat c x) c 0) / (nth (S (cellnat c x)) c 0 - nth (cellnat c x) c 0).
 Proof.
-  intros Hn. unfold norm_dist. rewrite (cell_index_nat c x Hn), pyget_nat, pyget_nat1. reflexivity.
+  intros Hn. unfold norm_dist, gen_norm_dist. cbv zeta. rewrite (cell_index_nat c x Hn), pyget_nat, pyget_nat1. reflexivity.
 Qed.
 
 (* ------------------------------------------------------------------ *)
 (* the three regimes of the weight/edge helpers                        *)
-Lemma nhalf_R : @nhalf' R _ = 1 / 2.
-Proof. unfold nhalf'. numR. reflexivity. Qed.
+(* the proofs below are ABOUT THE REGENERATED helpers (Gen/InterpWeights.v): if the source of
+   _compute_*_weights_edge / _find_indices / _NearestInterpolator._evaluate changes its rules,
+   these lemmas are re-checked against the new text *)
+Lemma nhalf_R : @of_Q R _ (1 # 2)%Q = 1 / 2.
+Proof. unfold of_Q. numR. cbn. reflexivity. Qed.
+
+Ltac unfold_gen :=
+  unfold weights_edge, gen_weights_edge, gen_nearest_weights_edge, gen_linear_weights_edge; cbv zeta;
+  rewrite ?nhalf_R; numR.
 
 Lemma we_in s (i : Z) y : 0 <= y <= 1 ->
   weights_edge s i y =
@@ -132,25 +139,24 @@ Lemma we_in s (i : Z) y : 0 <= y <= 1 ->
   | SLinear => mkax i (i + 1) (1 - y) y
   end.
 Proof.
-  intros Hy. unfold weights_edge. rewrite nhalf_R. numR.
-  destruct (Rltb_spec y 0); [lra|]. destruct (Rltb_spec 1 y); [lra|].
-  destruct s; reflexivity.
+  intros Hy. destruct s; unfold_gen;
+  (destruct (Rltb_spec y 0); [lra|]); (destruct (Rltb_spec 1 y); [lra|]); reflexivity.
 Qed.
 
 Lemma we_lo s (i : Z) y : y < 0 ->
   weights_edge s i y = mkax i 0 0 (match s with SNearest => 1 | SLinear => y + 1 end).
 Proof.
-  intros Hy. unfold weights_edge. numR.
-  destruct (Rltb_spec y 0); [|lra]. destruct (Rltb_spec 1 y); [lra|].
-  destruct s; reflexivity.
+  intros Hy. destruct s; unfold_gen;
+  (destruct (Rltb_spec y 0); [|lra]); (destruct (Rltb_spec 1 y); [lra|]);
+  try (destruct (Rltb y (1 / 2))); first [reflexivity | f_equal; lra].
 Qed.
 
 Lemma we_hi s (i : Z) y : 1 < y ->
   weights_edge s i y = mkax (-1) (i + 1) (match s with SNearest => 1 | SLinear => (1 - y) + 1 end) 0.
 Proof.
-  intros Hy. unfold weights_edge. numR.
-  destruct (Rltb_spec y 0); [lra|]. destruct (Rltb_spec 1 y); [|lra].
-  destruct s; reflexivity.
+  intros Hy. destruct s; unfold_gen;
+  (destruct (Rltb_spec y 0); [lra|]); (destruct (Rltb_spec 1 y); [|lra]);
+  try (destruct (Rltb y (1 / 2))); first [reflexivity | f_equal; lra].
 Qed.
 
 Lemma axis_data_ge2 s (c : list R) x : (2 <= length c)%nat ->
@@ -299,7 +305,7 @@ Lemma nearest_index_nat (c : list R) x : (1 <= length c)%nat ->
   nearest_index c x = Z.of_nat (nearest_nat c x).
 Proof.
   intros Hn. destruct c as [|a [|b c]]; [cbn in Hn; lia | reflexivity |].
-  unfold nearest_index, nearest_nat. rewrite nhalf_R. numR.
+  unfold nearest_index, nearest_nat, gen_nearest_pick. rewrite nhalf_R. numR.
   rewrite cell_index_nat by (cbn; lia).
   destruct (Rltb _ _); lia.
 Qed.
